@@ -10,7 +10,7 @@ Generate type stubs for configurations.
 import inspect
 from typing import Any, Dict, Optional, Type, Union
 
-from .core import BaseField, Config, ConfigType, Field, Schema
+from .core import BaseField, Config, ConfigType, ConfigTypeField, Field, Schema
 from .fields import InstanceMethodField, VirtualField
 
 
@@ -24,6 +24,8 @@ def get_annotation_typestr(field: Union[BaseField, Type, str]) -> str:
     """
     if isinstance(field, Field):
         storage_type = field.storage_type
+    elif isinstance(field, ConfigTypeField):
+        storage_type = field.config_type
     elif isinstance(field, Schema):
         storage_type = Schema
     elif isinstance(field, type):
